@@ -29,8 +29,8 @@ def _close(x, y, scale):
 
 def _integrand(case):
     dim = case["dim"]
-    g1 = drive.driver_function(dim, case["fseed"])
-    g2 = drive.driver_function(dim, case["fseed"] + 17)
+    g1 = drive.fit_to_box(drive.driver_function(dim, case["fseed"]), case["a"], case["b"])
+    g2 = drive.fit_to_box(drive.driver_function(dim, case["fseed"] + 17), case["a"], case["b"])
     comps = [g1, g2, lambda x: g1(x) * 0.25 - 2.0 * x[0]][: case.get("nout", 2)]
     return comps, drive.vector_function(comps)
 
